@@ -301,26 +301,14 @@ Proof.
         split; [subst; rewrite <- app_assoc; reflexivity|]. split; assumption.
 Qed.
 
-(* no directory <-> non-directory change anywhere *)
-Definition NKC (t1 t2 : tree) : Prop :=
-  forall q a b, find t1 q = Some a -> find t2 q = Some b -> isdir a = isdir b.
-
-Lemma NKC_sub t1 t2 x a b : lookup x t1 = Some a -> lookup x t2 = Some b ->
-  isdir a = true -> isdir b = true -> NKC t1 t2 -> NKC (nsub a) (nsub b).
-Proof.
-  intros E1 E2 Ea Eb HN q a' b' H1 H2. apply (HN (x :: q)).
-  - destruct q as [|y q]; [discriminate|]. rewrite find_deep, E1, Ea. exact H1.
-  - destruct q as [|y q]; [discriminate|]. rewrite find_deep, E2, Eb. exact H2.
-Qed.
-
 Definition SpecLine (sm : bool) (t1 t2 : tree) (pre : list N) (l : line) : Prop :=
   match l with (m, p, s) =>
     exists q, p = pre ++ q /\ classify sm (find t1 q) (find t2 q) = Some (m, s) end.
 
-Lemma diff_spec sm d : forall pre t1 t2, wfb d t1 = true -> wfb d t2 = true -> NKC t1 t2 ->
+Lemma diff_spec sm d : forall pre t1 t2, wfb d t1 = true -> wfb d t2 = true ->
   forall l, In l (diff_tree sm d pre t1 t2) <-> SpecLine sm t1 t2 pre l.
 Proof.
-  induction d as [|d IH]; intros pre t1 t2 Hw1 Hw2 HN [[m p] s]; unfold SpecLine.
+  induction d as [|d IH]; intros pre t1 t2 Hw1 Hw2 [[m p] s]; unfold SpecLine.
   - apply wfb_0 in Hw1. apply wfb_0 in Hw2. subst. cbn [diff_tree]. split; [intros []|].
     intros [q [_ Hc]]. rewrite !find_nil in Hc. discriminate.
   - apply wfb_S in Hw1. destruct Hw1 as [Hs1 Hsub1]. apply wfb_S in Hw2. destruct Hw2 as [Hs2 Hsub2].
@@ -332,13 +320,24 @@ Proof.
         -- destruct (node_change sm a b) as [m0|] eqn:Enc; [|destruct Hl].
            destruct Hl as [Hl|[]]. inversion Hl; subst. exists [nname a]. split; [reflexivity|].
            rewrite !find_one, Ho1, Ho2. cbn [classify]. rewrite Enc. reflexivity.
-        -- destruct (isdir a) eqn:Ea, (isdir b) eqn:Eb; cbn [andb] in Hl; try (destruct Hl; fail).
-           destruct (tree_eqb (nsub a) (nsub b)) eqn:Et; [destruct Hl|].
-           apply (IH _ _ _ (Hsub1 a Ha) (Hsub2 b Hb) (NKC_sub _ _ _ _ _ Ho1 Ho2 Ea Eb HN)) in Hl.
-           destruct Hl as [q' [Hp Hc]]. exists (x :: q').
-           split; [subst; rewrite <- app_assoc; reflexivity|].
-           destruct q' as [|y q']; [cbn in Hc; discriminate|].
-           rewrite !find_deep, Ho1, Ho2, Ea, Eb. exact Hc.
+        -- destruct (isdir a) eqn:Ea, (isdir b) eqn:Eb; cbn [andb] in Hl.
+           ++ destruct (tree_eqb (nsub a) (nsub b)) eqn:Et; [destruct Hl|].
+              apply (IH _ _ _ (Hsub1 a Ha) (Hsub2 b Hb)) in Hl.
+              destruct Hl as [q' [Hp Hc]]. exists (x :: q').
+              split; [subst; rewrite <- app_assoc; reflexivity|].
+              destruct q' as [|y q']; [cbn in Hc; discriminate|].
+              rewrite !find_deep, Ho1, Ho2, Ea, Eb. exact Hc.
+           ++ apply (print_dir_spec _ _ _ _ (Hsub1 a Ha)) in Hl.
+              destruct Hl as [-> [q' [n' [Hp [Hf Hs']]]]]. exists (x :: q').
+              split; [subst; rewrite <- app_assoc; reflexivity|].
+              destruct q' as [|y q']; [discriminate|].
+              rewrite !find_deep, Ho1, Ho2, Ea, Eb, Hf. subst s. reflexivity.
+           ++ apply (print_dir_spec _ _ _ _ (Hsub2 b Hb)) in Hl.
+              destruct Hl as [-> [q' [n' [Hp [Hf Hs']]]]]. exists (x :: q').
+              split; [subst; rewrite <- app_assoc; reflexivity|].
+              destruct q' as [|y q']; [discriminate|].
+              rewrite !find_deep, Ho1, Ho2, Ea, Eb, Hf. subst s. reflexivity.
+           ++ destruct Hl.
       * symmetry in Ho1, Ho2. pose proof (lookup_some _ _ _ Ho1) as [Ha Hxa]. destruct Hl as [Hl|Hl].
         -- inversion Hl; subst. exists [nname a]. split; [reflexivity|].
            rewrite !find_one, Ho1, Ho2. reflexivity.
@@ -367,12 +366,17 @@ Proof.
         -- left. rewrite !find_one, E1, E2 in Hc. cbn [classify] in Hc.
            destruct (node_change sm a b) as [m0|] eqn:Enc; [|discriminate]. inversion Hc; subst. left; reflexivity.
         -- right. rewrite !find_deep, E1, E2 in Hc.
-           assert (Hab : isdir a = isdir b) by (apply (HN [x]); rewrite find_one; assumption).
-           destruct (isdir a) eqn:Ea; rewrite <- Hab in *; [|discriminate]. cbn [andb].
-           destruct (tree_eqb (nsub a) (nsub b)) eqn:Et.
-           { apply tree_eqb_sound in Et. rewrite Et, classify_same in Hc. discriminate. }
-           apply (IH _ _ _ (Hsub1 a Ha) (Hsub2 b Hb) (NKC_sub _ _ _ _ _ E1 E2 Ea (eq_sym Hab) HN)).
-           exists (y :: q''). split; [subst; rewrite <- app_assoc; reflexivity | exact Hc].
+           destruct (isdir a) eqn:Ea, (isdir b) eqn:Eb; cbn [andb]; [| | |discriminate].
+           ++ destruct (tree_eqb (nsub a) (nsub b)) eqn:Et.
+              { apply tree_eqb_sound in Et. rewrite Et, classify_same in Hc. discriminate. }
+              apply (IH _ _ _ (Hsub1 a Ha) (Hsub2 b Hb)).
+              exists (y :: q''). split; [subst; rewrite <- app_assoc; reflexivity | exact Hc].
+           ++ destruct (find (nsub a) (y :: q'')) as [n'|] eqn:Ef; [|discriminate]. inversion Hc; subst.
+              apply (print_dir_spec _ _ _ _ (Hsub1 a Ha)). split; [reflexivity|].
+              exists (y :: q''), n'. split; [rewrite <- app_assoc; reflexivity|]. split; [exact Ef | reflexivity].
+           ++ destruct (find (nsub b) (y :: q'')) as [n'|] eqn:Ef; [|discriminate]. inversion Hc; subst.
+              apply (print_dir_spec _ _ _ _ (Hsub2 b Hb)). split; [reflexivity|].
+              exists (y :: q''), n'. split; [rewrite <- app_assoc; reflexivity|]. split; [exact Ef | reflexivity].
       * split; [apply (dual_spec t1 t2 Hs1 Hs2); exists x; rewrite E1, E2; repeat split; left; discriminate|].
         pose proof (lookup_some _ _ _ E1) as [Ha Hxa]. rewrite (find_lookup_none t2 x q' E2) in Hc.
         destruct q' as [|y q''].
@@ -403,9 +407,9 @@ Proof.
   - intros H. exists p. split; [reflexivity | exact H].
 Qed.
 
-Lemma diff_exact sm d t1 t2 : wfb d t1 = true -> wfb d t2 = true -> NKC t1 t2 ->
+Lemma diff_exact sm d t1 t2 : wfb d t1 = true -> wfb d t2 = true ->
   forall l, In l (diff_tree sm d [] t1 t2) <-> Demanded sm t1 t2 l.
-Proof. intros H1 H2 HN l. rewrite (diff_spec sm d [] t1 t2 H1 H2 HN). apply SpecLine_nil. Qed.
+Proof. intros H1 H2 l. rewrite (diff_spec sm d [] t1 t2 H1 H2). apply SpecLine_nil. Qed.
 
 Lemma paths_complete d t p n : wfb d t = true -> find t p = Some n -> In p (paths d [] t).
 Proof.
@@ -435,12 +439,12 @@ Proof.
   - intros [Ha Hb]. split; [|exact Hb]. intros l. rewrite Ha. symmetry. apply expected_spec; assumption.
 Qed.
 
-(* the model's output always satisfies the oracle's set clause, for pairs without kind change *)
-Lemma model_meets_oracle sm d t1 t2 : wfb d t1 = true -> wfb d t2 = true -> NKC t1 t2 ->
+(* the model's output always satisfies the oracle's set clause *)
+Lemma model_meets_oracle sm d t1 t2 : wfb d t1 = true -> wfb d t2 = true ->
   lset_eqb (diff_tree sm d [] t1 t2) (expected sm d t1 t2) = true.
 Proof.
-  intros H1 H2 HN. apply lset_eqb_spec. intros l.
-  rewrite (diff_exact sm d t1 t2 H1 H2 HN), (expected_spec sm d t1 t2 H1 H2). reflexivity.
+  intros H1 H2. apply lset_eqb_spec. intros l.
+  rewrite (diff_exact sm d t1 t2 H1 H2), (expected_spec sm d t1 t2 H1 H2). reflexivity.
 Qed.
 
 (* ---- the clauses of the property ---- *)
@@ -449,11 +453,11 @@ Proof.
   unfold node_change. destruct (_ || _ || _); [|discriminate]. intros H; inversion H. eauto.
 Qed.
 
-Lemma added_exact sm d t1 t2 : wfb d t1 = true -> wfb d t2 = true -> NKC t1 t2 -> forall p s,
+Lemma added_exact sm d t1 t2 : wfb d t1 = true -> wfb d t2 = true -> forall p s,
   In (Plus, p, s) (diff_tree sm d [] t1 t2) <->
   find t1 p = None /\ exists n, find t2 p = Some n /\ s = isdir n.
 Proof.
-  intros H1 H2 HN p s. rewrite (diff_exact sm d t1 t2 H1 H2 HN). unfold Demanded.
+  intros H1 H2 p s. rewrite (diff_exact sm d t1 t2 H1 H2). unfold Demanded.
   destruct (find t1 p) as [a|], (find t2 p) as [b|]; cbn [classify]; split.
   - destruct (node_change sm a b) as [m|] eqn:E; [|discriminate]. destruct (node_change_mod _ _ _ _ E) as [? [? [? [? ->]]]]. discriminate.
   - intros [H _]; discriminate.
@@ -465,11 +469,11 @@ Proof.
   - intros [_ [n [Hn _]]]; discriminate.
 Qed.
 
-Lemma removed_exact sm d t1 t2 : wfb d t1 = true -> wfb d t2 = true -> NKC t1 t2 -> forall p s,
+Lemma removed_exact sm d t1 t2 : wfb d t1 = true -> wfb d t2 = true -> forall p s,
   In (Minus, p, s) (diff_tree sm d [] t1 t2) <->
   find t2 p = None /\ exists n, find t1 p = Some n /\ s = isdir n.
 Proof.
-  intros H1 H2 HN p s. rewrite (diff_exact sm d t1 t2 H1 H2 HN). unfold Demanded.
+  intros H1 H2 p s. rewrite (diff_exact sm d t1 t2 H1 H2). unfold Demanded.
   destruct (find t1 p) as [a|], (find t2 p) as [b|]; cbn [classify]; split.
   - destruct (node_change sm a b) as [m|] eqn:E; [|discriminate]. destruct (node_change_mod _ _ _ _ E) as [? [? [? [? ->]]]]. discriminate.
   - intros [H _]; discriminate.
@@ -481,12 +485,12 @@ Proof.
   - intros [_ [n [Hn _]]]; discriminate.
 Qed.
 
-Lemma type_change_exact sm d t1 t2 : wfb d t1 = true -> wfb d t2 = true -> NKC t1 t2 ->
+Lemma type_change_exact sm d t1 t2 : wfb d t1 = true -> wfb d t2 = true ->
   forall p a b, find t1 p = Some a -> find t2 p = Some b ->
   ((exists m q u s, In (Mod true m q u, p, s) (diff_tree sm d [] t1 t2)) <-> nty a <> nty b).
 Proof.
-  intros H1 H2 HN p a b Ea Eb. split.
-  - intros [m [q [u [s Hin]]]]. apply (diff_exact sm d t1 t2 H1 H2 HN) in Hin. unfold Demanded in Hin.
+  intros H1 H2 p a b Ea Eb. split.
+  - intros [m [q [u [s Hin]]]]. apply (diff_exact sm d t1 t2 H1 H2) in Hin. unfold Demanded in Hin.
     rewrite Ea, Eb in Hin. cbn [classify] in Hin. unfold node_change in Hin.
     destruct (_ || _ || _); [|discriminate]. injection Hin as Ht _ _ _ _.
     apply negb_true_iff in Ht. apply N.eqb_neq in Ht. exact Ht.
@@ -494,16 +498,16 @@ Proof.
     assert (Hc : exists m q u, node_change sm a b = Some (Mod true m q u)).
     { unfold node_change. rewrite Hne. cbn [negb orb]. eauto. }
     destruct Hc as [m [q [u Hc]]]. exists m, q, u, (isdir b).
-    apply (diff_exact sm d t1 t2 H1 H2 HN). unfold Demanded. rewrite Ea, Eb. cbn [classify]. rewrite Hc. reflexivity.
+    apply (diff_exact sm d t1 t2 H1 H2). unfold Demanded. rewrite Ea, Eb. cbn [classify]. rewrite Hc. reflexivity.
 Qed.
 
-Lemma content_change_exact sm d t1 t2 : wfb d t1 = true -> wfb d t2 = true -> NKC t1 t2 ->
+Lemma content_change_exact sm d t1 t2 : wfb d t1 = true -> wfb d t2 = true ->
   forall p a b, find t1 p = Some a -> find t2 p = Some b ->
   ((exists t q u s, In (Mod t true q u, p, s) (diff_tree sm d [] t1 t2)) <->
    isfile a = true /\ isfile b = true /\ ncontent a <> ncontent b).
 Proof.
-  intros H1 H2 HN p a b Ea Eb. split.
-  - intros [t [q [u [s Hin]]]]. apply (diff_exact sm d t1 t2 H1 H2 HN) in Hin. unfold Demanded in Hin.
+  intros H1 H2 p a b Ea Eb. split.
+  - intros [t [q [u [s Hin]]]]. apply (diff_exact sm d t1 t2 H1 H2) in Hin. unfold Demanded in Hin.
     rewrite Ea, Eb in Hin. cbn [classify] in Hin. unfold node_change in Hin.
     destruct (_ || _ || _); [|discriminate]. injection Hin as _ Hm _ _ _.
     apply andb_true_iff in Hm. destruct Hm as [Hm Hc]. apply andb_true_iff in Hm. destruct Hm as [Hfa Hfb].
@@ -515,7 +519,7 @@ Proof.
     assert (Hc : exists t q u, node_change sm a b = Some (Mod t true q u)).
     { unfold node_change. rewrite Hfa, Hfb, Hc'. cbn [negb andb]. rewrite orb_true_r. cbn [orb]. eauto. }
     destruct Hc as [t [q [u Hc]]]. exists t, q, u, (isdir b).
-    apply (diff_exact sm d t1 t2 H1 H2 HN). unfold Demanded. rewrite Ea, Eb. cbn [classify]. rewrite Hc. reflexivity.
+    apply (diff_exact sm d t1 t2 H1 H2). unfold Demanded. rewrite Ea, Eb. cbn [classify]. rewrite Hc. reflexivity.
 Qed.
 
 Lemma dual_diag t : dual t t = map (fun a => (Some a, Some a)) t.
@@ -548,31 +552,31 @@ Proof.
 Qed.
 
 (* nothing is listed at or below a path whose node (including its subtree) is identical *)
-Lemma identical_subtree_silent sm d t1 t2 : wfb d t1 = true -> wfb d t2 = true -> NKC t1 t2 ->
+Lemma identical_subtree_silent sm d t1 t2 : wfb d t1 = true -> wfb d t2 = true ->
   forall p n, find t1 p = Some n -> find t2 p = Some n ->
   forall r m s, ~ In (m, p ++ r, s) (diff_tree sm d [] t1 t2).
 Proof.
-  intros H1 H2 HN p n E1 E2 r m s Hin. apply (diff_exact sm d t1 t2 H1 H2 HN) in Hin. unfold Demanded in Hin.
+  intros H1 H2 p n E1 E2 r m s Hin. apply (diff_exact sm d t1 t2 H1 H2) in Hin. unfold Demanded in Hin.
   destruct r as [|z r].
   - rewrite app_nil_r, E1, E2, classify_same in Hin. discriminate.
   - rewrite !find_app in Hin by discriminate. destruct p as [|x p]; [discriminate|].
     rewrite E1, E2, classify_same in Hin. discriminate.
 Qed.
 
-(* F-C53: a directory replaced by a file: the paths below it exist only in snapshot 1 but are not listed *)
-Definition ex_t1 : tree := [Node 1 1 [] 0 [Node 1 0 [5%N] 0 []]].
+(* former F-C53 witness (fixed in /repo 8fb513213): a directory replaced by a file; the paths
+   below it exist only in snapshot 1 and are now listed as removed *)
+Definition ex_t1 : tree := [Node 1 1 [] 0 [Node 1 0 [5%N] 0 []; Node 2 1 [] 0 [Node 7 0 [] 0 []]]].
 Definition ex_t2 : tree := [Node 1 0 [7%N] 0 []].
 
-Lemma dir_to_file_refuted :
-  wfb 3 ex_t1 = true /\ wfb 3 ex_t2 = true /\
-  (exists n, find ex_t1 [1%N; 1%N] = Some n) /\ find ex_t2 [1%N; 1%N] = None /\
-  (forall sm m s, ~ In (m, [1%N; 1%N], s) (diff_tree sm 3 [] ex_t1 ex_t2)) /\
-  ~ NKC ex_t1 ex_t2.
-Proof.
-  split; [reflexivity|]. split; [reflexivity|]. split; [eexists; reflexivity|]. split; [reflexivity|]. split.
-  - intros [|] m s H; vm_compute in H; destruct H as [H|[]]; inversion H.
-  - intros HN. specialize (HN [1%N] _ _ eq_refl eq_refl). discriminate.
-Qed.
+Example dir_to_file_children_listed :
+  wfb 4 ex_t1 = true /\ wfb 4 ex_t2 = true /\
+  diff_tree false 4 [] ex_t1 ex_t2 =
+    [(Mod true false false false, [1%N], false); (Minus, [1%N; 1%N], false);
+     (Minus, [1%N; 2%N], true); (Minus, [1%N; 2%N; 7%N], false)] /\
+  diff_tree false 4 [] ex_t2 ex_t1 =
+    [(Mod true false false false, [1%N], true); (Plus, [1%N; 1%N], false);
+     (Plus, [1%N; 2%N], true); (Plus, [1%N; 2%N; 7%N], false)].
+Proof. vm_compute. repeat split. Qed.
 
 (* non-vacuity: an addition, a removal below a removed dir, a deep content change, a type change,
    a metadata-only change (only with --metadata), an untouched shared subtree *)
@@ -594,5 +598,15 @@ Example c53_nonvacuous :
      (Minus, [4%N], true); (Minus, [4%N; 1%N], false);
      (Plus, [5%N], false)] /\
   check_case (mk true 4 nv_t1 nv_t2 (diff_tree true 4 [] nv_t1 nv_t2)) = 0%nat /\
-  check_case (mk false 3 ex_t1 ex_t2 (diff_tree false 3 [] ex_t1 ex_t2)) = 2%nat.
+  check_case (mk false 4 ex_t1 ex_t2 (diff_tree false 4 [] ex_t1 ex_t2)) = 0%nat /\
+  (* the pre-fix output (only the T line) is rejected by the oracle *)
+  check_case (mk false 4 ex_t1 ex_t2 [(Mod true false false false, [1%N], false)]) = 2%nat.
 Proof. vm_compute. repeat split. Qed.
+
+Lemma kind_change_children_listed sm d t1 t2 : wfb d t1 = true -> wfb d t2 = true ->
+  forall x a b r n, lookup x t1 = Some a -> lookup x t2 = Some b -> isdir a = true -> isdir b = false ->
+  find (nsub a) r = Some n -> In (Minus, x :: r, isdir n) (diff_tree sm d [] t1 t2).
+Proof.
+  intros H1 H2 x a b r n E1 E2 Ea Eb Hf. apply (diff_exact sm d t1 t2 H1 H2). unfold Demanded.
+  destruct r as [|y r]; [discriminate|]. rewrite !find_deep, E1, E2, Ea, Eb, Hf. reflexivity.
+Qed.
